@@ -213,7 +213,7 @@ def run_shard(exe, workdir, stream, args, seed, shard, extra=None, timeout=3000)
 
 
 def case_of(line):
-    m = re.search(r"\bhist=(\d+)", line)
+    m = re.search(r"\b(?:hist|case)=(\d+)", line)
     return int(m.group(1)) if m else None
 
 
@@ -305,8 +305,9 @@ def run_check(pid, tier, seed, replay=None):
         for r in results:
             rel_specs = [l for l in r["specs"] if len(l.split()) > 3 and any(t in spec_ids for t in l.split()[1:5])]
             rel_diffs = []
+            fields = re.compile(cfg.get("diff_fields_by_stream", {}).get(r["stream"], cfg.get("diff_fields", r".*")))
             for l in r["diffs"]:
-                m = re.match(r"DIFF line=\d+ (?:hist=\S+ )?(\S+)", l)
+                m = re.match(r"DIFF line=\d+ (?:(?:hist|case)=\S+ )?(\S+)", l)
                 what = m.group(1) if m else ""
                 if fields.fullmatch(what) or fields.match(what):
                     rel_diffs.append(l)
